@@ -172,3 +172,55 @@ PS_ADD = Contract(
 )
 PS_ADD.enum = enum_ps_add
 CONTRACTS.append(PS_ADD)
+
+
+# ---------------------------------------------------------------------------------------------- constructors: the settings given are the settings held
+SOURCE_INIT = Contract(
+    target=f"{SRC}:Source.__init__",
+    types={"self": "obj:Source{__brightness:none;__purity:none;__indistinguishability:none;__probability_threshold:none}",
+           "purity": "real", "brightness": "real", "indistinguishability": "real", "probability_threshold": "real"},
+    requires=[],
+    modifies=["self.__brightness", "self.__purity", "self.__indistinguishability", "self.__probability_threshold"],
+    ensures={
+        # every argument is stored as given - also an explicit 0 (a fully distinguishable source, a source that emits nothing)
+        "stored_as_given": "self.__purity == purity and self.__brightness == brightness and self.__indistinguishability == indistinguishability and "
+                           "self.__probability_threshold == probability_threshold",
+        "in_range": "2 * purity > 1 and purity <= 1 and 0 <= brightness and brightness <= 1 and 0 <= indistinguishability and indistinguishability <= 1 and "
+                    "0 <= probability_threshold and probability_threshold <= 1",
+    },
+    raises={"ValueError": "not (2 * purity > 1 and purity <= 1 and 0 <= brightness and brightness <= 1 and 0 <= indistinguishability and indistinguishability <= 1 and "
+                          "0 <= probability_threshold and probability_threshold <= 1)"},
+    props=["C06"],
+    inline=["purity", "brightness", "indistinguishability", "probability_threshold"],      # the property setters are executed from their real source
+)
+SOURCE_INIT.no_callee = True
+DETECTOR_INIT = Contract(
+    target=f"{DET}:Detector.__init__",
+    types={"self": "obj:Detector{__efficiency:none;__p_dark:none;__photon_counting:none}", "efficiency": "real", "p_dark": "real", "photon_counting": "bool"},
+    requires=[],
+    modifies=["self.__efficiency", "self.__p_dark", "self.__photon_counting"],
+    ensures={"stored_as_given": "self.__efficiency == efficiency and self.__p_dark == p_dark and self.__photon_counting == photon_counting",
+             "in_range": "0 <= efficiency and efficiency <= 1 and 0 <= p_dark and p_dark <= 1"},
+    raises={"ValueError": "not (0 <= efficiency and efficiency <= 1 and 0 <= p_dark and p_dark <= 1)"},
+    props=["C07"],
+    inline=["efficiency", "p_dark", "photon_counting"],
+)
+DETECTOR_INIT.no_callee = True
+CONTRACTS += [SOURCE_INIT, DETECTOR_INIT]
+
+
+# ---------------------------------------------------------------------------------------------- process_post_selection (C05 / C07 / C11)
+PSP_PATH = "lightworks/emulator/utils/post_selection_processing.py"
+PROCESS_PS = Contract(
+    target=f"{PSP_PATH}:process_post_selection",
+    types={"post_selection": ["obj:PostSelection{multi_rules:bool;__rules:list[int];__modes_with_rules:list[int]}", "none", "'text'", "int"]},
+    requires=[], modifies=[],
+    ensures={
+        # a PostSelection object is handed on as the object it is (rules added to it later are seen by whoever holds it); nothing gives the always-true object
+        "the_same_object": "implies(isinstance(old(post_selection), PostSelection), result is old(post_selection))",
+        "default_for_none": "implies(is_none(old(post_selection)), isinstance(result, DefaultPostSelection))",
+    },
+    raises={"TypeError": "not is_none(post_selection) and not isinstance(post_selection, PostSelection)"},
+    props=["C05", "C07", "C11"],
+)
+CONTRACTS += [PROCESS_PS]
